@@ -87,10 +87,13 @@ def run(chk, prog):
         ifs = [p for p in A.enclosing((byid, parent), x, {"IfStmt"})]
         lin = None
         for p in ifs:
-            c = A.declref(p["cond"])
+            cnd, flip = A.strip(p["cond"]), False
+            while cnd.get("k") == "UnaryOperator" and cnd.get("op") == "!" and cnd.get("c"):
+                cnd, flip = A.strip(cnd["c"][0]), not flip
+            c = A.declref(cnd)
             if c is not None and c["name"] == "linearRF":
                 then_ids = {y["id"] for y in A.walk(p["then"])}
-                lin = x["id"] in then_ids
+                lin = (x["id"] in then_ids) != flip        # under `if (!linearRF)` the then-branch is the nonlinear one
                 break
         A.require(lin is not None, "main: RF map construction not under the linearRF switch")
         model = "linear" if "angle" in ce.get("callee_params", []) else "sinusoidal"
